@@ -554,16 +554,16 @@ def reconnect_listener(E):
     n = [0]
 
     def on_suspend(E_, what):
+        # the request event is already set, so the first wait() returns at once; the next time the listener really parks
+        # (event clear) the service loop is ended by cancellation: one iteration is observed
         n[0] += 1
-        if n[0] >= 2:
-            E_.throw('CancelledError')       # end the service loop after one iteration
-        return None
+        E_.throw('CancelledError')
     E.suspend_hook = on_suspend
     was_connecting = sock.attrs['_connecting']
     E.await_value(E.call(E.getattr(sock, '_reconnect_listener'), []))
     E.cover('listener-step')
     steps = [o[0] for o in order]
-    E.prove('listener:keeps_serving[after handling - or ignoring - a request it waits for the next one]', n[0] >= 2)
+    E.prove('listener:keeps_serving[after handling - or ignoring - a request it waits for the next one]', n[0] == 1)
     if was_connecting:
         E.prove('listener:request_ignored_while_already_connecting', steps == ['stop_all_streams'])
     else:
